@@ -29,19 +29,19 @@ def B(name):
     return Sym(z3.Bool(name))
 
 
-def record(name, cls=None, **fields):
+def record(_name, cls=None, **fields):
     """Symbolic object with the given fields ('real'/'int'/'bool' -> fresh variable named <name>_<field>)."""
-    o = Obj(cls, name)
+    o = Obj(cls, _name)
     for k, v in fields.items():
         if isinstance(v, str) and v in ('real', 'int', 'bool'):
-            o.attrs[k] = Ctx.var('%s_%s' % (name, k), v)
+            o.attrs[k] = Ctx.var('%s_%s' % (_name, k), v)
         else:
             o.attrs[k] = v
     return o
 
 
-def xyz(name, cls=None, **more):
-    return record(name, cls, x='real', y='real', z='real', **more)
+def xyz(_name, cls=None, **more):
+    return record(_name, cls, x='real', y='real', z='real', **more)
 
 
 def frac(s):
